@@ -441,6 +441,11 @@ func runProxy(c *core.Ctx) {
 		c.Fail("C20.X2.callback-count", "the callback ran %d times, expected exactly 2", cbCount)
 		return
 	}
+	// the pumps stop only for a reason: some side reached EOF, a stream failed, or a side was closed from outside
+	if !a.eofGiven && !b.eofGiven && !a.readFault && !b.readFault && !a.writeFault && !b.writeFault && !extClose {
+		c.Fail("C20.X4.stopped-without-cause", "both sides were closed although neither side reached EOF, no stream returned an error and nobody closed a side from outside (zero-byte reads: A %d, B %d)", a.zeroReads, b.zeroReads)
+		return
+	}
 	// delivered bytes are a prefix of the bytes sent, in order
 	check := func(from, to *pipeEnd) bool {
 		if !bytes.HasPrefix(from.sent, to.out) {
